@@ -4,7 +4,8 @@
 //        variant = [c|p][g|u][u|s]  copy/pointer, guarded/unguarded, unstable/stable
 //        cmp     = lt | gt | q4      a<b, a>b, a/4<b/4 (equivalence coarser than equality)
 //        seq     = csv of the keys player i will present, '-' = none (starts exhausted)
-//   init        insert_start(head or sup) for every player, then init()
+//   init [perm] insert_start(head or sup) for every player in the order `perm` (csv permutation of
+//               0..k-1, default ascending), then init()
 //   replace     delete_min_insert(winner's next key, or sup when it has none)
 //
 // Answer of init/replace: "w=<min_source> T=[<losers_[0]> ... <losers_[k_-1]>]", an entry is
@@ -69,7 +70,8 @@ static std::string src_str(uint32_t s) { return s == INVALID ? std::string("-1")
 // ---- entry printers for the four Loser layouts
 template <typename L>
 auto entry_str(const L& e, int) -> decltype(e.sup, e.key, std::string()) {
-    return src_str(e.source) + ":" + (e.sup ? std::string("S") : std::to_string(e.key.v));
+    // copy guarded classes: the key member of a supremum node is shown too (first_insert_ fill)
+    return src_str(e.source) + ":" + (e.sup ? "S/" + std::to_string(e.key.v) : std::to_string(e.key.v));
 }
 template <typename L>
 auto entry_str(const L& e, long) -> decltype(e.keyp, std::string()) {
@@ -106,6 +108,7 @@ struct TreeW : ITree {
     bool raw_sup() override { return Guarded ? is_sup(t.losers_[0], 0) : false; }
     uint32_t min_source() override { return t.min_source(); }
     std::string dump() override {
+        if (t.k_ > 256) return "#" + std::to_string(t.k_);     // huge trees: only the size
         std::string s = "[";
         for (uint32_t i = 0; i < t.k_; ++i) { if (i) s += ' '; s += entry_str(t.losers_[i], 0); }
         return s + "]";
@@ -114,7 +117,7 @@ struct TreeW : ITree {
 
 struct SessionBase {
     virtual ~SessionBase() {}
-    virtual void init() = 0;
+    virtual void init(const std::vector<long long>& order) = 0;
     virtual void replace() = 0;
 };
 
@@ -186,10 +189,23 @@ struct Session : SessionBase {
         return "w=" + src_str(ms) + " T=" + tree->dump();
     }
 
-    void init() override {
+    // `order` = the order in which the players are registered with insert_start (a permutation of
+    // 0..k-1; empty = ascending)
+    void init(const std::vector<long long>& order) override {
         if (inited) { vh::answer("bad-op"); return; }
+        std::vector<uint32_t> ord;
+        if (order.empty()) { for (uint32_t i = 0; i < k; ++i) ord.push_back(i); }
+        else {
+            std::vector<bool> seen(k, false);
+            if (order.size() != k) { vh::answer("bad-op"); return; }
+            for (long long x : order) {
+                if (x < 0 || x >= static_cast<long long>(k) || seen[static_cast<size_t>(x)]) { vh::answer("bad-op"); return; }
+                seen[static_cast<size_t>(x)] = true;
+                ord.push_back(static_cast<uint32_t>(x));
+            }
+        }
         make_tree();
-        for (uint32_t i = 0; i < k; ++i) {
+        for (uint32_t i : ord) {
             if (live(i)) tree->insert_start(&cur(i), i, false);
             else tree->insert_start(nullptr, i, true);
         }
@@ -227,7 +243,7 @@ static bool make_session(const std::vector<std::string>& t) {
     if ((v[0] != 'c' && v[0] != 'p') || (v[1] != 'g' && v[1] != 'u') || (v[2] != 'u' && v[2] != 's')) return false;
     if (t[2] == "lt") s->cmp.mode = 0; else if (t[2] == "gt") s->cmp.mode = 1; else if (t[2] == "q4") s->cmp.mode = 2; else return false;
     long long k = std::stoll(t[3]);
-    if (k < 1 || k > 64 || t.size() != static_cast<size_t>(5 + k)) return false;
+    if (k < 1 || k > 200000 || t.size() != static_cast<size_t>(5 + k)) return false;
     s->k = static_cast<uint32_t>(k);
     if (t[4] != "-") { s->has_sentinel = true; s->sentinel = K(std::stoll(t[4])); }
     if (!s->guarded && !s->has_sentinel) return false;
@@ -271,7 +287,13 @@ int main(int argc, char** argv) {
             continue;
         }
         if (!sess) { vh::answer("bad-op"); continue; }
-        if (t[0] == "init") sess->init();
+        if (t[0] == "init") {
+            std::vector<long long> order;
+            bool ok = t.size() <= 2;
+            if (ok && t.size() == 2) { try { order = vh::csv(t[1]); } catch (...) { ok = false; } }
+            if (!ok) { vh::answer("bad-op"); continue; }
+            sess->init(order);
+        }
         else if (t[0] == "replace") sess->replace();
         else vh::answer("bad-op");
     }
